@@ -14,7 +14,7 @@ EXPLANATION = (
     "from_str_radix, ...) never runs straight into unreachable!/panic!/unwrap - Lua's literal grammar is wider than "
     "Rust's parsers; (R-PAREN, role prefix) the stated belief of block::prefix_remove_leading_newlines - a formatted "
     "Prefix::Expression is always Expression::Parentheses, else unreachable!() - holds on every layout path: no context "
-    "with which an expression in prefix role reaches the parenthesis gate removes parentheses of any kind. Decides these clauses, not the behaviour: value-dependent panics (usize "
+    "with which an expression in prefix role reaches the parenthesis gate removes parentheses of any kind. (R-ONCE) no formatter is applied to a node that already came out of a formatter (rebuilt tokens have no source position: the range test and format_field's unreachable!() depend on it). Decides these clauses, not the behaviour: value-dependent panics (usize "
     "subtraction, unwrap on positions), stack depth and running time are not decided (census reported only).")
 ASSUMPTIONS = [
     "rustc MIR and Instance::try_resolve are trusted",
@@ -355,4 +355,6 @@ def run(ctx):
                                    why="so the formatted Prefix::Expression is no longer Expression::Parentheses and "
                                        "block::prefix_remove_leading_newlines reaches its unreachable!() when the statement "
                                        "is the first of its block: format_code panics on a valid program"))
+    import r_raw
+    reps.append(r_raw.rule_once(ctx, "C07"))
     return reps
